@@ -35,7 +35,7 @@ IterCls == {"UIter", "gen", "USizedIter"}             \* iterable but not a coll
 ViewCls == {"dict_items"}
 
 \* strict subclass edges between concrete classes
-Parent(c) == CASE c = "bool" -> "int" [] c = "B" -> "A"
+Parent(c) == CASE c = "bool" -> "int" [] c = "B" -> "A" [] c = "GL" -> "list"
                [] c \in {"defaultdict", "OrderedDict", "Counter"} -> "dict" [] OTHER -> "object"
 RECURSIVE SubCls(_, _)
 SubCls(c, d) == c = d \/ d = "object" \/ (Parent(c) # "object" /\ SubCls(Parent(c), d))
@@ -60,6 +60,8 @@ Abcs(c) ==
     [] c = "UIter" -> {"Iterable"}
     [] c = "gen"   -> {"Iterable", "Iterator", "Generator"}
     [] c = "USizedIter" -> {"Iterable", "Iterator", "Sized"}
+    [] c = "GL"    -> SeqAbc \cup {"MutableSequence"}       \* class GL(list[T])
+    [] c = "PM"    -> {"HasM", "Hashable"}                  \* structurally implements the runtime-checkable protocol HasM
     [] c \in {"int", "bool", "float", "complex", "NoneType"} -> {"Hashable"}
     [] OTHER -> {"Hashable"}                                      \* user classes A, B; type objects
 
@@ -82,6 +84,7 @@ cj == Atom("complex", 77)
 sa == Atom("str", 101)  sb == Atom("str", 102)   \* "a", "b": one-character strings
 none == Atom("NoneType", 0)
 oa == Atom("A", 201)    ob == Atom("B", 202)     \* instances of user classes
+pm == Atom("PM", 301)   og == Atom("G", 302)     \* implements protocol HasM / instance of a plain user generic
 
 Numeric(x) == x.k = "atom" /\ x.cls \in {"int", "bool", "float"}
 \* Python's ==
@@ -123,6 +126,9 @@ HShallow(s)   == H("shallow", s, <<>>, <<>>)             \* Iterator[...], Gener
 HMap(s, hk, hv) == H("map", s, <<hk, hv>>, <<>>)         \* dict Mapping MutableMapping defaultdict OrderedDict
 HCounter(hk)  == H("map", "Counter", <<hk, HCls("int")>>, <<>>)
 HItems(hk, hv) == H("items", "ItemsView", <<hk, hv>>, <<>>)
+\* user generics: GL = class GL(list[T]) subscripted GL[h] (class test + pseudo-superclass list[h]);
+\* G = class G(Generic[T]) subscripted G[h] (class test only: the parameter cannot be verified)
+HGen(s, h)    == H("gen", s, <<h>>, <<>>)
 HAnn(h, vs)   == H("ann", "", <<h>>, vs)                 \* Annotated[h, V1, ..., Vn], Vi beartype validators
 
 (* --------------------------------------------------------------- validators *)
@@ -201,6 +207,7 @@ Sat(h, x) ==
                              LET p == x.items[i] IN
                              p.k = "cont" /\ p.cls = "tuple" /\ Len(p.items) = 2
                              /\ Sat(h.a[1], p.items[1]) /\ Sat(h.a[2], p.items[2])
+    [] h.k = "gen"  -> InstOf(x, h.s) /\ (h.s # "GL" \/ Sat(HSeq("list", h.a[1]), x))
     [] h.k = "ann"  -> Sat(h.a[1], x) /\ \A i \in DOMAIN h.m : ValSem(h.m[i], x)
 
 \* beartype's documented full-depth meaning: as Sat, but Literal is "instance of a member's
@@ -221,6 +228,7 @@ SatB(h, x) ==
                              LET p == x.items[i] IN
                              p.k = "cont" /\ p.cls = "tuple" /\ Len(p.items) = 2
                              /\ SatB(h.a[1], p.items[1]) /\ SatB(h.a[2], p.items[2])
+    [] h.k = "gen"  -> InstOf(x, h.s) /\ (h.s # "GL" \/ SatB(HSeq("list", h.a[1]), x))
     [] h.k = "ann"  -> SatB(h.a[1], x) /\ \A i \in DOMAIN h.m : ValSem(h.m[i], x)
     [] OTHER -> Sat(h, x)
 
@@ -249,6 +257,7 @@ MustReject(h, x) ==
     [] h.k = "items" -> \/ ~InstOf(x, "ItemsView")
                         \/ (Len(x.items) > 0 /\ \A i \in DOMAIN x.items :
                               MustReject(HTupF(h.a), x.items[i]))
+    [] h.k = "gen"  -> ~InstOf(x, h.s) \/ (h.s = "GL" /\ MustReject(HSeq("list", h.a[1]), x))
     [] h.k = "ann"  -> MustReject(h.a[1], x) \/ \E i \in DOMAIN h.m : ~ValSem(h.m[i], x)
 
 (* ------------------ an accepted object has >= 1 consistent item per container level *)
@@ -267,6 +276,7 @@ Weak(h, x) ==
                            \E i \in DOMAIN x.items : Weak(h.a[1], x.items[i].key) /\ Weak(h.a[2], x.items[i].val))
     [] h.k = "items" -> /\ InstOf(x, "ItemsView")
                         /\ (Len(x.items) = 0 \/ \E i \in DOMAIN x.items : Weak(HTupF(h.a), x.items[i]))
+    [] h.k = "gen"  -> InstOf(x, h.s) /\ (h.s # "GL" \/ Weak(HSeq("list", h.a[1]), x))
     [] h.k = "ann"  -> Weak(h.a[1], x) /\ \A i \in DOMAIN h.m : ValSem(h.m[i], x)
     [] OTHER -> SatB(h, x)
 
@@ -350,6 +360,9 @@ ChkR(h, x, r, conf) ==
     [] h.k = "items" ->
          /\ InstOf(x, "ItemsView")
          /\ (Len(x.items) = 0 \/ ChkR(HTupF(h.a), x.items[1], r, conf))
+    [] h.k = "gen"  ->          \* isinstance(x, G) and <check of every unerased pseudo-superclass>
+         /\ InstOf(x, h.s)
+         /\ (h.s # "GL" \/ ChkR(HSeq("list", h.a[1]), x, r, conf))
     [] h.k = "ann"  ->          \* metahint first (elided when ignorable), then every validator's code, and-ed
          /\ (Ignorable(h.a[1]) \/ ChkR(h.a[1], x, r, conf))
          /\ \A i \in DOMAIN h.m : ValCode(h.m[i], x)
@@ -406,6 +419,9 @@ Ev(h, x, r, conf) ==
          IF ~InstOf(x, "ItemsView") THEN ENo(FALSE)
          ELSE IF Len(x.items) = 0 THEN E(TRUE, 0, 1, 0, 0)
          ELSE EPlus(E(TRUE, 1, 1, 1, 0), Ev(HTupF(h.a), x.items[1], r, conf))
+    [] h.k = "gen" ->        \* user generic: class test, then the unerased pseudo-superclass list[T] (GL) / nothing (G)
+         IF ~InstOf(x, h.s) THEN ENo(FALSE)
+         ELSE IF h.s = "GL" THEN Ev(HSeq("list", h.a[1]), x, r, conf) ELSE ENo(TRUE)
     [] h.k = "ann" ->
          LET eb == IF Ignorable(h.a[1]) THEN ENo(TRUE) ELSE Ev(h.a[1], x, r, conf) IN
          IF ~eb.ok THEN eb ELSE EPlus(eb, ENo(\A i \in DOMAIN h.m : ValCode(h.m[i], x)))
@@ -432,6 +448,7 @@ ReadBound(h) ==
     [] h.k = "tupf"  -> Len(h.a) + SumBound(h.a)
     [] h.k = "union" -> SumBound(h.a)
     [] h.k = "ann"   -> ReadBound(h.a[1])
+    [] h.k = "gen"   -> IF h.s = "GL" THEN 1 + ReadBound(h.a[1]) ELSE 0
     [] OTHER -> 0
 RECURSIVE Nodes(_), SumNodes(_)
 SumNodes(hs) == IF hs = <<>> THEN 0 ELSE Nodes(Head(hs)) + SumNodes(Tail(hs))
